@@ -64,9 +64,14 @@ def run_one(spec: dict) -> dict:
         t = holder["tree"]
         return -1 if t is None else int(t.metaepoch_count)
 
+    seen_values: list = []
+
     def fun(x):
         v = objectives.truth(spec["fn"], x, bounds, maximize)
-        events.append([0, mc_now(), 0])
+        xx = np.asarray(x, dtype=np.float64)
+        inbox = int(xx.shape == (spec["dim"],) and bool(np.all(xx >= bounds[:, 0])) and bool(np.all(xx <= bounds[:, 1])))
+        events.append([0, mc_now(), inbox])
+        seen_values.append(v)
         return v
 
     # user-defined global conditions that log their own consults - one extends the shipped MetaepochLimit, one the base class
@@ -123,10 +128,28 @@ def run_one(spec: dict) -> dict:
     except Exception as ex:  # noqa: BLE001
         return {"name": spec["name"], "error": repr(ex)[:300]}
     kind = {"UserTargetOrLimit": "UserLimitOrTarget"}.get(g["kind"], g["kind"])
+    # what can be seen of the finished tree from outside
+    lv = tree.levels
+    demes = [d for level in lv for d in level]
+    mc = int(tree.metaepoch_count)
+    struct = (len(lv) == len(spec["levels"]) and len(lv[0]) == 1 and lv[0][0].id == "root"
+              and len({d.id for d in demes}) == len(demes)
+              and all(d.level == li for li, level in enumerate(lv) for d in level)
+              and all(sum(1 for p in lv[li - 1] if any(c is d for c in p.children)) == 1 for li in range(1, len(lv)) for d in lv[li])
+              and all(not d.children for d in lv[-1]) and all(any(c is k for k in lv[li + 1]) for li in range(len(lv) - 1) for p in lv[li] for c in p.children)
+              and all(0 <= d.started_at <= mc for d in demes)
+              and all(c.started_at >= p.started_at for p in demes for c in p.children))
+    overlimit = any(sum(1 for d in level if d.is_active) > spec["limit"] for level in lv[1:])
+    best = tree.best_individual
+    haslocal = any(x["engine"] == "LOCAL" for x in spec["levels"])
+    bestval = (max(seen_values) if maximize else min(seen_values)) if seen_values else None
+    besttrue = int(best is not None and float(best.fitness) == objectives.truth(spec["fn"], best.genome, bounds, maximize))
+    bestok = int(best is not None and (haslocal or float(best.fitness) == bestval))
     return {"name": spec["name"], "events": events, "observable": observable, "counted": 1, "rootinit": rootinit,
             "gsc": {"kind": kind, "n": int(g["n"])},
             "final": {"mc": int(tree.metaepoch_count), "tev": int(tree.n_evaluations),
-                      "levsum": int(sum(d.n_evaluations for _, d in tree.all_demes))},
+                      "levsum": int(sum(d.n_evaluations for _, d in tree.all_demes)),
+                      "struct": int(bool(struct)), "overlimit": int(bool(overlimit)), "besttrue": besttrue, "bestok": bestok},
             "spec": spec}
 
 
